@@ -14,8 +14,6 @@ VERIF = os.path.dirname(os.path.dirname(os.path.abspath(__file__)))
 REPO = os.environ.get("VERIF_REPO", "/repo")
 BUILD = os.path.join(VERIF, "build")
 COQ = os.path.join(VERIF, "coq")
-HARNESS_BIN = os.path.join(BUILD, "target", "release", "tt-harness")
-RUNNER_BIN = os.path.join(BUILD, "runner", "tt-runner")
 REPO_BIN = os.path.join(BUILD, "target-repo", "release", "cargo-tauri-typegen")
 NCPU = os.cpu_count() or 4
 GUARD = "tauri_typegen_verif"
@@ -209,12 +207,35 @@ def coqchk(pid, timeout=1500):
 
 
 # ---------------------------------------------------------------- builds of the implementation side
+# Everything is per property: harness/src/bin/<id>.rs -> build/target/release/<id>,
+# coq/Extract/ExC<NN>.v -> coq/tt_<id>.ml -> build/runner/<id>/tt-runner.
 
-def build_harness():
+def harness_bin(pid):
+    return os.path.join(BUILD, "target", "release", pid.lower())
+
+
+def runner_bin(pid):
+    return os.path.join(BUILD, "runner", pid.lower(), "tt-runner")
+
+
+def build_harness(pid=None):
+    """Build the Rust driver(s) against the current working tree of REPO
+    (cargo fingerprints make this a no-op when nothing changed)."""
     with Lock("cargo-harness"):
+        hdir = os.path.join(VERIF, "harness")
         lock_src = os.path.join(REPO, "Cargo.lock")
-        r = sh(["cargo", "build", "--release", "--offline"], cwd=os.path.join(VERIF, "harness"),
-               check=False, timeout=3000)
+        lock_dst = os.path.join(hdir, "Cargo.lock")
+        if not os.path.exists(lock_dst):
+            import shutil
+            shutil.copy(lock_src, lock_dst)
+        env = dict(ENV)
+        env["CARGO_TARGET_DIR"] = os.path.join(BUILD, "target")
+        cmd = ["cargo", "build", "--release", "--offline"]
+        if pid:
+            cmd += ["--bin", pid.lower()]
+        else:
+            cmd += ["--bins"]
+        r = sh(cmd, cwd=hdir, env=env, check=False, timeout=3000)
         if r.returncode != 0:
             raise BuildError("harness build failed against %s (does the tree compile?)\n%s" % (REPO, r.stdout[-4000:]))
 
@@ -230,15 +251,98 @@ def build_repo_bin():
             raise BuildError("binary build failed\n%s" % r.stdout[-4000:])
 
 
-def build_runner():
-    with Lock("runner"):
-        rc, out = coq_make(["Extract/Extract.vo"])
-        if rc != 0:
-            raise BuildError("extraction failed\n" + out[-3000:])
-        src = [os.path.join(COQ, "tt_model.ml")] + [os.path.join(VERIF, "runner", f) for f in os.listdir(os.path.join(VERIF, "runner")) if f.endswith(".ml")]
-        if os.path.exists(RUNNER_BIN) and all(os.path.getmtime(s) <= os.path.getmtime(RUNNER_BIN) for s in src):
+def build_runner(pid):
+    pid = pid.lower()
+    rc, out = coq_make(["Extract/Ex%s.vo" % pid.upper()])
+    if rc != 0:
+        raise BuildError("extraction failed\n" + out[-3000:])
+    with Lock("runner-" + pid):
+        ml = os.path.join(COQ, "tt_%s.ml" % pid)
+        if not os.path.exists(ml):
+            # .vo is up to date but the extracted file is gone (fresh clone of build products)
+            os.remove(os.path.join(COQ, "Extract", "Ex%s.vo" % pid.upper()))
+            rc, out = coq_make(["Extract/Ex%s.vo" % pid.upper()])
+            if rc != 0 or not os.path.exists(ml):
+                raise BuildError("extraction failed\n" + out[-3000:])
+        src = [ml] + [os.path.join(VERIF, "runner", f) for f in
+                      ("sexp.ml", "glue.ml", "registry.ml", "main.ml", "cmds_%s.ml" % pid, "build.sh")]
+        rb = runner_bin(pid)
+        if os.path.exists(rb) and all(os.path.getmtime(s) <= os.path.getmtime(rb) for s in src):
             return
-        sh([os.path.join(VERIF, "runner", "build.sh")], timeout=1200)
+        sh([os.path.join(VERIF, "runner", "build.sh"), pid], timeout=1200)
+
+
+# ---------------------------------------------------------------- sandboxes for runs of the real binary
+
+class Sandbox:
+    """Scratch directory under build/sandbox/ (never under /tmp, /repo or the
+    source tree of /verif); removed on exit. Helpers to write a project, run the
+    real CLI binary in it and snapshot directory contents."""
+
+    def __init__(self, tag):
+        import tempfile
+        base = os.path.join(BUILD, "sandbox")
+        os.makedirs(base, exist_ok=True)
+        self.root = tempfile.mkdtemp(prefix=tag + "-", dir=base)
+
+    def __enter__(self):
+        return self
+
+    def __exit__(self, *a):
+        import shutil
+        shutil.rmtree(self.root, ignore_errors=True)
+
+    def path(self, *rel):
+        return os.path.join(self.root, *rel)
+
+    def write(self, rel, content):
+        p = self.path(rel)
+        os.makedirs(os.path.dirname(p), exist_ok=True)
+        mode = "wb" if isinstance(content, bytes) else "w"
+        with open(p, mode) as f:
+            f.write(content)
+        return p
+
+    def write_files(self, files, under=""):
+        for rel, content in files.items():
+            self.write(os.path.join(under, rel), content)
+
+    def cli(self, args, cwd=None, timeout=120):
+        """Run `cargo-tauri-typegen tauri-typegen <args>` (the real binary built
+        from REPO). Returns (exit status, combined output). Status -1 = timeout."""
+        argv = [REPO_BIN, "tauri-typegen"] + list(args)
+        try:
+            r = subprocess.run(argv, cwd=cwd or self.root, env=ENV, timeout=timeout,
+                               stdout=subprocess.PIPE, stderr=subprocess.STDOUT)
+            return r.returncode, r.stdout.decode("utf-8", "replace")
+        except subprocess.TimeoutExpired:
+            return -1, "TIMEOUT"
+
+    def snapshot(self, rel=".", strip_timestamp=True):
+        """{relative path: bytes | None for directories} of everything below rel."""
+        out = {}
+        top = self.path(rel)
+        for r, ds, fs in os.walk(top):
+            for d in ds:
+                out[os.path.relpath(os.path.join(r, d), top) + "/"] = None
+            for f in fs:
+                p = os.path.join(r, f)
+                try:
+                    b = open(p, "rb").read()
+                except OSError:
+                    b = b"<unreadable>"
+                if strip_timestamp:
+                    b = strip_generated_at(b)
+                out[os.path.relpath(p, top)] = b
+        return out
+
+
+def strip_generated_at(b):
+    """Remove the timestamp comment (`Generated at: ...`) and the cache's
+    `generated_at` field so that two generations can be compared."""
+    b = re.sub(rb"(Generated at: )[^\n]*", rb"\1<ts>", b)
+    b = re.sub(rb'("generated_at"\s*:\s*)"[^"]*"', rb'\1"<ts>"', b)
+    return b
 
 
 # ---------------------------------------------------------------- s-expressions (python side)
@@ -420,7 +524,8 @@ def run_harness(cmd, cases, shards=None, per_case_timeout=30, extra_args=()):
     parts = _chunks(cases, shards or NCPU)
 
     def one(part):
-        res = _run_stream([HARNESS_BIN, cmd, *extra_args], [json.dumps(c) for c in part], per_case_timeout)
+        pid, sub = cmd.split("-", 1)
+        res = _run_stream([harness_bin(pid), sub, *extra_args], [json.dumps(c) for c in part], per_case_timeout)
         out = []
         for c, r in zip(part, res):
             if isinstance(r, tuple) and r[0] == "skipped":
@@ -444,7 +549,8 @@ def run_runner(cmd, sexps, shards=None, timeout=1800):
 
     def one(part):
         inp = "\n".join(part) + "\n"
-        r = subprocess.run(["/bin/sh", "-c", "ulimit -s unlimited 2>/dev/null; exec %s %s" % (RUNNER_BIN, cmd)],
+        pid, sub = cmd.split("-", 1)
+        r = subprocess.run(["/bin/sh", "-c", "ulimit -s unlimited 2>/dev/null; exec %s %s" % (runner_bin(pid), sub)],
                            input=inp, stdout=subprocess.PIPE, stderr=subprocess.PIPE, text=True,
                            timeout=timeout, env=ENV, encoding="latin-1")
         lines = [l for l in r.stdout.split("\n") if l.strip()]
@@ -481,7 +587,9 @@ class Outcome:
 
 
 def load_known_findings(pid):
-    path = os.path.join(VERIF, "known_findings.json")
+    """Entries of known_findings/<pid>.json (committed; never written at run time).
+    `fixed` records suppress nothing and are skipped here."""
+    path = os.path.join(VERIF, "known_findings", pid + ".json")
     if not os.path.exists(path):
         return []
     data = json.load(open(path))
